@@ -30,10 +30,19 @@ impl Write for ScriptedSink {
                 self.calls.push((buf.to_vec(), -1));
                 Err(io::Error::new(io::ErrorKind::Interrupted, "interrupted"))
             }
-            -2 => {
-                self.calls.push((buf.to_vec(), -2));
+            e if e <= -2 => {
+                // a non-retryable failure; the kind varies (the contract singles out Interrupted only)
+                self.calls.push((buf.to_vec(), e));
                 self.any_fail = true;
-                Err(io::Error::new(io::ErrorKind::Other, "disk full"))
+                let kind = match e {
+                    -2 => io::ErrorKind::Other,
+                    -3 => io::ErrorKind::WouldBlock,
+                    -4 => io::ErrorKind::TimedOut,
+                    -5 => io::ErrorKind::BrokenPipe,
+                    -6 => io::ErrorKind::WriteZero,
+                    _ => io::ErrorKind::UnexpectedEof,
+                };
+                Err(io::Error::new(kind, "sink failure"))
             }
             k => {
                 let n = (k as usize).min(buf.len());
